@@ -168,6 +168,34 @@ CHECKS = {
         design_ref="DESIGN.md section 7, C14",
         note="The specification supplies inputs and fault histories, not the expected Ok/Err; termination is observed under a watchdog.",
         technique="TLA+ fault machine enumerated / simulated by TLC, replayed into the real front end in a sandbox"),
+    "C17": dict(
+        category="model_checking",
+        text="ProtoZoo.tla / MC_Proto: TLC enumerates message types covering every field kind and, per type, all presence patterns, the "
+             "all-zero value and a boundary sweep through every component (varint length classes, zig-zag bit 31, i32 extremes, length "
+             "octets). TLC checks that the expected decoded form is consistent with the schema rule (ProtoMap). The compiled real types "
+             "are written with both writer back ends (identical bytes required) and read back; the result must equal the original up to "
+             "proto3 default equivalence; every case runs under a watchdog and an allocation limit.",
+        design_ref="DESIGN.md section 7, C17",
+        note="Values beyond 2^31-1 are outside the family (TLC integers). Two open findings (lists nested in lists, list alternatives of a CHOICE).",
+        technique="TLC-enumerated schemas/values replayed into the real protobuf writer/reader (sandboxed)"),
+    "C18": dict(
+        category="model_checking",
+        text="Proto.tla is a proto3 wire decoder written in TLA+ from the encoding specification; ProtoMap.tla states the schema mapping rule. "
+             "The generated .proto is parsed by an independent proto3 reader (validity checks) and, per vector, the real writer's bytes "
+             "plus the schema AS DECLARED form a trace event that Trace_ProtoSchema.tla accepts iff the declared schema matches the rule "
+             "and the bytes decode under it to the value (up to default equivalence).",
+        design_ref="DESIGN.md section 7, C18",
+        note="Trusted: my reading of the protobuf encoding spec; tools/protolib.py as proto3 schema reader.",
+        technique="trace validation: real bytes + declared schema against a TLA+ proto3 decoder"),
+    "C20": dict(
+        category="model_checking",
+        text="Der.tla over Big numbers; TLC enumerates lengths at every 7/8-bit octet boundary up to u64::MAX, all 124 tags, the i64/u64 "
+             "boundary families, every boolean octet and enumerated indices, checks the specification's own round trip, and the real DER "
+             "writer/reader must emit exactly these octets, return the value and consume exactly the written bytes; recorded streams of "
+             "primitives are validated by Trace_Der.tla.",
+        design_ref="DESIGN.md section 7, C20",
+        note="INTEGER contents are specified as the writer emits them (the property asks for the round trip, not for minimal X.690 form).",
+        technique="TLA+ model + TLC enumeration replayed into the real code + trace validation"),
 }
 
 NOT_APPLICABLE = {}
